@@ -747,6 +747,10 @@ pub fn run(tier: Tier, seed: u64) -> Report {
     if rep.failed() {
         return rep;
     }
+    multi_subrun(&mut rep, tier, seed);
+    if rep.failed() {
+        return rep;
+    }
     stress_subrun(&mut rep, tier, seed);
     rep
 }
@@ -756,6 +760,7 @@ pub fn replay(kind: &str, case_json: &Value, st: &mut Stats) -> CheckResult {
     match kind {
         "schedule" => check(&serde_json::from_value(case_json.clone()).map_err(bad)?, st),
         "all-schedules" => check_all_schedules(&serde_json::from_value(case_json.clone()).map_err(bad)?, st),
+        "instances" => check_multi(&serde_json::from_value(case_json.clone()).map_err(bad)?, st),
         "stress" => check_stress(&serde_json::from_value(case_json.clone()).map_err(bad)?, st),
         _ => Err(Fail::Inconclusive(format!("unknown replay kind {kind}"))),
     }
@@ -1144,4 +1149,105 @@ pub fn stress_subrun(rep: &mut Report, tier: Tier, seed: u64) {
     // each case spawns up to 8 threads (and two processes): fewer workers than cores
     let r = engine::explore_n("C03", "stress", seed, tier.pick(60, 3000), 6, || stress_case(max), check_stress);
     rep.absorb("stress-os-schedules", r);
+}
+
+// ---------------------------------------------------------------------------------------------
+// Several server instances sharing one data directory, used one after the other (no overlap):
+// whatever one instance acknowledged, every other instance must serve.  Catches state kept in a
+// server instance instead of the shared storage.
+
+#[derive(Clone, Debug, Serialize, Deserialize, PartialEq, Eq, Hash)]
+pub struct MCase {
+    pub via: Via,
+    pub instances: u8,
+    /// which instance serves each op (index modulo instances)
+    pub who: Vec<u8>,
+    pub case: Case,
+}
+
+fn mcase(max_ops: usize) -> BoxedStrategy<MCase> {
+    let mut p = GenParams::default();
+    p.max_clients = 2;
+    p.max_ops = max_ops;
+    p.min_ops = 3;
+    p.w = [50, 22, 18, 8, 2, 0];
+    p.av_latest_pct = 75;
+    (prop_oneof![1 => Just(Via::Lib), 1 => Just(Via::Http)], 2u8..4, proptest::collection::vec(0u8..3, max_ops + 4), case::case(&p))
+        .prop_map(|(via, instances, who, case)| MCase { via, instances, who, case })
+        .boxed()
+}
+
+pub fn check_multi(mc: &MCase, st: &mut Stats) -> CheckResult {
+    let dir = TempDir::new("c03m");
+    let dpath = dir.path().to_path_buf();
+    let k = mc.instances.clamp(2, 3) as usize;
+    let mk = || -> Result<Driver, Fail> {
+        let mut d = Driver::with_factory(Backend::Sqlite, mc.via, &mc.case.cfg, None, crate::driver::sqlite_factory(dpath.clone()), None).map_err(|e| Fail::Violation(format!("opening storage: {e:#}")))?;
+        d.db_path = Some(dpath.clone());
+        Ok(d)
+    };
+    let mut or = Oracles::default();
+    or.c01 = true;
+    or.c02 = true;
+    or.c08 = true;
+    or.c11 = true;
+    let mut h = Hist::with_driver(&mc.case, mk()?, or);
+    // the other instances, and which instance each slot holds
+    let mut pool: Vec<Driver> = vec![];
+    let mut pool_ids: Vec<usize> = vec![];
+    for i in 1..k {
+        pool.push(mk()?);
+        pool_ids.push(i);
+    }
+    let mut current = 0usize;
+    let mut quiet = Stats::default();
+    quiet.frozen = true;
+    let n = mc.case.ops.len();
+    let mut switches = 0;
+    for (idx, op) in mc.case.ops.iter().enumerate() {
+        let want = (mc.who.get(idx).copied().unwrap_or(0) as usize) % k;
+        if want != current {
+            let j = pool_ids.iter().position(|x| *x == want).expect("instance in pool");
+            std::mem::swap(&mut h.drv, &mut pool[j]);
+            pool_ids[j] = current;
+            current = want;
+            switches += 1;
+        }
+        h.step(idx, op, &mut quiet).map_err(|f| match f {
+            Fail::Violation(m) => Fail::Violation(format!("{k} server instances on one data directory, used one at a time; request {idx} served by instance {current}: {m}")),
+            o => o,
+        })?;
+        if idx + 1 == n || idx % 5 == 4 {
+            let clients = h.clients.clone();
+            for c in clients {
+                h.c01_walk(idx, c, &mut quiet).map_err(|f| match f {
+                    Fail::Violation(m) => Fail::Violation(format!("{k} server instances on one data directory, used one at a time; walking through instance {current}: {m}")),
+                    o => o,
+                })?;
+                h.c11_walk(idx, c, &mut quiet).map_err(|f| match f {
+                    Fail::Violation(m) => Fail::Violation(format!("{k} server instances on one data directory, used one at a time; through instance {current}: {m}")),
+                    o => o,
+                })?;
+            }
+        }
+    }
+    st.check();
+    st.label(&format!("c03:instances:{k}:{:?}", mc.via));
+    if switches >= 2 {
+        let shape: Vec<(u8, &'static str)> = h.steps.iter().map(|s| (mc.who.get(s.idx).copied().unwrap_or(0) % k as u8, s.outcome.class())).collect();
+        st.nontrivial(&("c03-multi", mc.via, shape));
+    }
+    let _keep = dir;
+    Ok(())
+}
+
+pub fn multi_subrun(rep: &mut Report, tier: Tier, seed: u64) {
+    let r = engine::replay_dir::<MCase, _>("C03", "instances", check_multi);
+    rep.absorb("replay-tier-instances", r);
+    if rep.failed() {
+        return;
+    }
+    let max = tier.pick(24, 60);
+    let r = engine::explore("C03", "instances", seed, tier.pick(1500, 40_000), || mcase(max), check_multi);
+    rep.absorb("several-instances-one-directory-sequential", r);
 }
